@@ -34,7 +34,10 @@ RULE = ("Each case = a small committed base index (directory or RAM), a main wri
         "commit's adds minus its deletes; latest_generation() = initial + number of successful commits; AsyncWriter "
         "rivals that met a busy lock are present after join. Scripts may add nothing (delete-only and idle commits "
         "advance the generation like any other); in some cases the index is re-created in place while A's writer is open "
-        "and the writer attempt that follows must still be refused (content is not judged in those cases). Non-trivial = >=1 rival refused while the lock was held "
+        "and the writer attempt that follows must still be refused (content is not judged in those cases); a stale "
+        "cancel() on the finished main writer while the next writer is open must not disturb that writer or admit a "
+        "third; a writer that starts waiting for the lock in a thread of its own while A holds it must, once admitted, "
+        "build on A's commit. Non-trivial = >=1 rival refused while the lock was held "
         "and >=1 rival admitted; distinct by SHA-1 of the case.")
 ASSUMPTIONS = [
     "schedules are owned at storage-operation granularity; a rival runs atomically at a boundary of A (nested up to "
@@ -73,6 +76,9 @@ def case_s(draw):
         # the writer attempt that follows must still be refused
         "recreate_at": draw(st.one_of(st.none(), st.none(), st.integers(1, 40))),
         "stale_cancel": draw(st.booleans()),
+        # a writer that starts waiting for the lock (timeout 60 s) while A holds it, in a thread of its own; it gets
+        # the lock when A lets go and must build on what A committed
+        "waiter_at": draw(st.one_of(st.none(), st.integers(1, 25))),
     }
 
 
@@ -247,6 +253,7 @@ def _run(case, out):
 
         pending_async = []
         finished_writers = []
+        waiter = {}
         recreated = []
         nestset = set(case["nest_at"])
 
@@ -328,6 +335,24 @@ def _run(case, out):
                 out.label("bystander_process_forked_while_writer_open")
             owner = "B%d" % j
             held = mon.holder is not None
+            if case.get("waiter_at") == j and mon.holder == "A" and not waiter and not case.get("recreate_at"):
+                import threading
+
+                def wait_and_write():
+                    try:
+                        wst, _ = storage_for("W")
+                        wix = wst.open_index()
+                        ww = wix.writer(timeout=60, delay=0.01)
+                        ww.add_document(k=u"W_0", t=[u"a", u"b"], n=3)
+                        ww.commit(merge=False)
+                        waiter["outcome"] = "committed"
+                    except LockError:
+                        waiter["outcome"] = "lockerror"
+                    except Exception as e:
+                        waiter["error"] = "".join(traceback.format_exception(type(e), e, e.__traceback__))[-900:]
+                waiter["thread"] = threading.Thread(target=wait_and_write, daemon=True)
+                waiter["thread"].start()
+                out.label("writer_waiting_for_the_lock")
             if case.get("recreate_at") == j and mon.holder == "A" and not recreated:
                 recreated.append(j)
                 out.label("index_recreated_while_writer_open")
@@ -373,6 +398,8 @@ def _run(case, out):
             run_script("A", case["A"], on_tick=a_tick, depth=0)
         except Exception as e:
             stop_bystander()
+            if waiter:
+                waiter["thread"].join(30)
             for _, aw, _, _ in pending_async:
                 aw.join(10)   # no thread outlives the case
             if recreated:
@@ -389,6 +416,22 @@ def _run(case, out):
             out.fail("c04.main_writer_raises:%s" % type(e).__name__,
                      {"error": "".join(traceback.format_exception(type(e), e, e.__traceback__))[-900:]})
             return
+        if waiter:
+            waiter["thread"].join(180)
+            if waiter["thread"].is_alive():
+                out.exclude("waiting_writer_still_waiting_after_180s")
+                stop_bystander()
+                for _, aw, _, _ in pending_async:
+                    aw.join(10)
+                return
+            if "error" in waiter:
+                out.fail("c04.waiting_writer_fails", {"error": waiter["error"]})
+                stop_bystander()
+                for _, aw, _, _ in pending_async:
+                    aw.join(10)
+                return
+            if waiter.get("outcome") == "committed":
+                log.append(("W", ["W_0"], []))
         # the retry threads of AsyncWriter rivals can now get the lock, one after the other
         # The retry threads now compete for the lock.  Wait for them; meanwhile tell a busy lock (some thread holds it
         # according to the monitor) from a leaked one (nobody holds it, yet it cannot be had), so that a leak is
